@@ -77,8 +77,8 @@ add("C04",
     "increasing changepoints with segment / bandwidth limits, sorted disjoint non-empty left-closed intervals, labels 1..K, "
     "length limits, strict interior for circular binseg, valid distinct icolumns). Input as array or DataFrame (nine index kinds, eight column-label kinds); a second "
     "predict on the same detector (frame shortened in place, shorter object, refilled buffer) is held to the same predicate. Bounded exploration (n<=90, p<=4).",
-    "Trusted: the predicate in checks/common.py; negative tuned thresholds (rounding on constant data) are outside the domain "
-    "and counted; the documented not-PD error is accepted for multivariate Gaussian scorers.",
+    "Trusted: the predicate in checks/common.py; the predicate is asserted whatever the sign of the fitted threshold (D30, D35); "
+    "the documented not-PD error is accepted for multivariate Gaussian scorers.",
     "DESIGN.md section 4, C04")
 add("C13",
     "exhaustive enumeration of the integer box [-2,n+2]^k for 17 scorers + Hypothesis-generated malformed arrays + coverage-guided fuzzing (atheris/libFuzzer) of the cuts argument; validity predicate and definitional values",
